@@ -44,6 +44,17 @@ package util
 //@ ghost func subValues(values gomap[string]interface{}, sub *chart.Chart) gomap[string]interface{} = ite(has(values, chartName(sub)), values[chartName(sub)], nil).(map[string]interface{})
 //@ ghost func ownSchemaOK(chrt *chart.Chart, values gomap[string]interface{}) bool = len(chrt.Schema) == 0 && chrt.Schema == nil || schemaOK(values, chrt.Schema)
 
+// ---- C14: the values that are validated are the values that were handed in (not a converted copy)
+
+//@ func Values.AsMap
+//@   props C14
+//@   ensures [same-table-unless-empty] (len(v) > 0 ==> result == v) && (len(v) == 0 ==> len(result) == 0 && result != nil)
+
+//@ func ValidateAgainstSingleSchema
+//@   props C14
+//@   marks reterr != nil ==> len(errMsg(reterr)) > 0
+//@   ensures [validates-exactly-the-given-values] (reterr == nil) == schemaOK(values, schemaJSON)
+
 //@ func ValidateAgainstSchema
 //@   props C14
 //@   requires chrt != nil
